@@ -452,7 +452,10 @@ func (g *gen) drawTag(name string, label string) string {
 		}
 		return ""
 	}
-	switch rapid.IntRange(0, 13).Draw(t, label) {
+	switch rapid.IntRange(0, 14).Draw(t, label) {
+	case 14:
+		// a key that starts with a digit: legal for encoding/json, neither an identifier nor a number in the targets
+		return fmt.Sprintf(`json:"2%s"`, snake(name))
 	case 0:
 		return fmt.Sprintf(`json:"%s"`, snake(name))
 	case 1:
